@@ -689,7 +689,7 @@ theorem refines_confirmCore {s : Store} {L : Ledger} (hg : Good s L) {bm : Block
     obtain ⟨u, hu', h1, h2, h3⟩ := (hr.ucredits_iff op uc).mp hu
     have : u = t := hf.sameTx u hu' (by rw [← h1, hh])
     subst this; exact ⟨hu', h2, h3⟩
-  refine ⟨?_, ?_, ?_, ?_, ?_, ?_, ?_, cne, ?_, ?_, cnu, ?_⟩
+  refine ⟨?_, ?_, ?_, ?_, ?_, ?_, ?_, cne, ?_, ?_, cnu, ?_, by rw [clk, hm.locked]; exact hr.nodupLocked⟩
   · -- blocks
     rw [cb, hm.blocks]
     have e : newBlockRec s t bm = blockRecAfter s.blocks bm t := rfl
